@@ -1,10 +1,201 @@
-"""Kani side of the check driver (filled in below)."""
-import os, re, glob
+"""Kani side of the check driver.
+
+Harnesses live in /verif/kani/src/*.rs.  Each `#[kani::proof]` is preceded by a label line
+    // @C15,C16 <obligation id> complete|bounded(<bound>) [thorough]
+`complete`  : loop-free (or constant-bounded with unwinding assertions) over the full input domain = proof
+`bounded`   : a bounded stand-in, reported under coverage.bounded and never counted as proved
+`thorough`  : only run in the thorough tier
+The crate depends on the repository by path (VERIF_REPO, default /repo): the real code is compiled and
+symbolically executed, no extraction.
+"""
+import glob
+import os
+import re
+import shutil
+import subprocess
+import time
+
 HERE = os.path.dirname(os.path.abspath(__file__))
 VERIF = os.path.dirname(HERE)
+REPO = os.environ.get('VERIF_REPO', '/repo')
+WORK = os.path.join(VERIF, '.work')
+KANI_TIMEOUT = int(os.environ.get('VERIF_KANI_TIMEOUT', '1500'))
+
+LABEL = re.compile(r'^//\s*@([C0-9,]+)\s+(\S+)\s+(complete|bounded\([^)]*\))(\s+thorough)?\s*$')
+
+
+def all_harnesses():
+    res = []
+    for p in sorted(glob.glob(os.path.join(VERIF, 'kani', 'src', '*.rs'))):
+        mod = os.path.splitext(os.path.basename(p))[0]
+        lines = open(p).read().split('\n')
+        pending = None
+        for i, ln in enumerate(lines):
+            m = LABEL.match(ln.strip())
+            if m:
+                pending = m
+                continue
+            m2 = re.match(r'\s*(?:pub\s+)?fn\s+(\w+)\s*\(', ln)
+            if m2 and pending:
+                res.append({'name': m2.group(1), 'module': mod, 'props': pending.group(1).split(','),
+                            'id': 'kani:' + pending.group(2), 'mode': pending.group(3),
+                            'tier': 'thorough' if pending.group(4) else 'quick', 'file': p})
+                pending = None
+    return res
+
 
 def harnesses_for(prop, tier):
-    return []
+    return [h for h in all_harnesses() if prop in h['props'] and (tier == 'thorough' or h['tier'] == 'quick')]
+
+
+def workdir(tag='kani'):
+    """Harness crate instantiated against REPO; target dir is shared between runs."""
+    d = os.path.join(WORK, tag if REPO == '/repo' else tag + '-alt')
+    os.makedirs(d, exist_ok=True)
+    tmpl = open(os.path.join(VERIF, 'kani', 'Cargo.toml.in')).read().replace('@REPO@', REPO)
+    cur = os.path.join(d, 'Cargo.toml')
+    if not os.path.exists(cur) or open(cur).read() != tmpl:
+        open(cur, 'w').write(tmpl)
+    lock_src = os.path.join(REPO, 'Cargo.lock')
+    if not os.path.exists(lock_src):
+        lock_src = '/repo/Cargo.lock'
+    if not os.path.exists(os.path.join(d, 'Cargo.lock')):
+        shutil.copy(lock_src, os.path.join(d, 'Cargo.lock'))
+    src = os.path.join(d, 'src')
+    if os.path.islink(src) or os.path.exists(src):
+        if os.path.islink(src):
+            os.unlink(src)
+        else:
+            shutil.rmtree(src)
+    os.symlink(os.path.join(VERIF, 'kani', 'src'), src)
+    return d
+
+
+def _env():
+    e = dict(os.environ)
+    e['CARGO_NET_OFFLINE'] = 'true'
+    return e
+
 
 def run(prop, tier, harnesses):
-    return None
+    t0 = time.time()
+    d = workdir()
+    names = [h['name'] for h in harnesses]
+    cmd = ['cargo', 'kani', '-Z', 'stubbing', '-Z', 'function-contracts', '--output-format', 'terse']
+    for n in names:
+        cmd += ['--harness', n]
+    res = {'obligations': [], 'failed': {}, 'cmds': [' '.join(cmd[:8]) + ' --harness <each of %d>' % len(names)],
+           'bounded': [], 'complete': [], 'functions': [], 'trusted': [], 'assumptions': [], 'wall_s': {}}
+    # serialise kani runs across concurrently running checks (shared target dir)
+    lock = open(os.path.join(WORK, 'kani.lock'), 'w')
+    try:
+        import fcntl
+        fcntl.flock(lock, fcntl.LOCK_EX)
+        p = subprocess.run(cmd, cwd=d, env=_env(), capture_output=True, text=True, timeout=KANI_TIMEOUT)
+    except subprocess.TimeoutExpired:
+        res['undecided'] = f'kani timeout after {KANI_TIMEOUT}s'
+        return res
+    finally:
+        try:
+            fcntl.flock(lock, fcntl.LOCK_UN)
+        except Exception:
+            pass
+        lock.close()
+    out = p.stdout + '\n' + p.stderr
+    res['wall_s'] = {'kani_total': round(time.time() - t0, 1)}
+    checked = set(re.findall(r'Checking harness (?:\w+::)*(\w+)\.\.\.', out))
+    msum = re.search(r'Complete - (\d+) successfully verified harnesses, (\d+) failures, (\d+) total', out)
+    failed_names = set(re.findall(r'Verification failed for - (?:\w+::)*(\w+)', out))
+    if not msum:
+        first = next((l for l in out.split('\n') if l.startswith('error')), out[-400:])
+        res['undecided'] = f'kani did not complete: {first}'
+        return res
+    if int(msum.group(3)) != len(names) or not set(names) <= checked:
+        res['undecided'] = f'kani ran {msum.group(3)} harnesses, expected {len(names)}'
+        return res
+    # split the (sequential) output per harness
+    per = {}
+    cur = None
+    for ln in out.split('\n'):
+        m = re.match(r'Checking harness (?:\w+::)*(\w+)\.\.\.', ln)
+        if m:
+            cur = m.group(1)
+            per[cur] = []
+        elif cur:
+            per[cur].append(ln)
+    # vacuity: harnesses carry cover!(..) statements; in a harness that *verifies*, an unsatisfied cover
+    # means its assumptions exclude the interesting inputs
+    for n, lns in per.items():
+        txt = '\n'.join(lns)
+        if n in failed_names:
+            continue
+        for a, b in re.findall(r'\*\* (\d+) of (\d+) cover properties satisfied', txt):
+            if a != b:
+                res['undecided'] = f'vacuity guard: a cover property in harness {n} is unsatisfiable'
+                return res
+        mt = re.search(r'Verification Time: ([0-9.]+)s', txt)
+        if mt:
+            res['wall_s'][n] = float(mt.group(1))
+    for h in harnesses:
+        ob = {'id': h['id'], 'harness': h['name'], 'text': f"{h['module']}::{h['name']} ({h['mode']})", 'mode': h['mode']}
+        if h['mode'] == 'complete':
+            res['complete'].append(h['id'])
+            res['obligations'].append(ob)
+        else:
+            res['bounded'].append({'obligation': h['id'], 'bound': h['mode'], 'harness': h['name'],
+                                   'result': 'failed' if h['name'] in failed_names else 'held within bound'})
+            # bounded stand-ins are reported but never counted as proved obligations
+        if h['name'] in failed_names:
+            f = {'kind': 'kani check FAILURE', 'harness': h['name'], 'fn': None, 'unit': 'kani',
+                 'raw': _extract_failure('\n'.join(per.get(h['name'], [])), h['name']), 'text': ob['text']}
+            if len(res['failed']) < 2:
+                f.update(playback(h))
+            res['failed'][h['id']] = [f]
+    res['assumptions'] = ['kani harness inputs are kani::any() over the whole type unless the label says bounded',
+                          'CBMC unwinding assertions are on: an insufficient unwind bound fails instead of passing']
+    return res
+
+
+def _extract_failure(out, name):
+    lines = out.split('\n')
+    keep = [l for l in lines if 'Failed Checks' in l or 'FAILURE' in l or 'File:' in l]
+    return '\n'.join(keep[:40])
+
+
+def playback(h):
+    """Re-run one failing harness with concrete playback and execute the generated test natively
+    against the real crate (cargo kani playback)."""
+    info = {}
+    d = os.path.join(WORK, 'kani-replay')
+    try:
+        if os.path.exists(d):
+            shutil.rmtree(d)
+        os.makedirs(d)
+        tmpl = open(os.path.join(VERIF, 'kani', 'Cargo.toml.in')).read().replace('@REPO@', REPO)
+        open(os.path.join(d, 'Cargo.toml'), 'w').write(tmpl)
+        shutil.copy(os.path.join(workdir(), 'Cargo.lock'), os.path.join(d, 'Cargo.lock'))
+        shutil.copytree(os.path.join(VERIF, 'kani', 'src'), os.path.join(d, 'src'))
+        env = _env()
+        env['CARGO_TARGET_DIR'] = os.path.join(workdir(), 'target')
+        cmd = ['cargo', 'kani', '-Z', 'stubbing', '-Z', 'function-contracts', '-Z', 'concrete-playback',
+               '--concrete-playback=inplace', '--harness', h['name'], '--output-format', 'terse']
+        p = subprocess.run(cmd, cwd=d, env=env, capture_output=True, text=True, timeout=900)
+        src = open(os.path.join(d, 'src', os.path.basename(h['file']))).read()
+        tests = re.findall(r'(#\[test\]\s*fn (kani_concrete_playback_\w+)\(\) \{.*?\n\})', src, re.S)
+        if not tests:
+            info['replay_result'] = 'kani produced no concrete playback test'
+            return info
+        cmd2 = ['cargo', 'kani', 'playback', '-Z', 'concrete-playback', '--', 'kani_concrete_playback_' + h['name']]
+        p2 = subprocess.run(cmd2, cwd=d, env=env, capture_output=True, text=True, timeout=900)
+        out2 = p2.stdout + p2.stderr
+        failing = set(re.findall(r'test (?:\w+::)*(kani_concrete_playback_\w+) \.\.\. FAILED', out2))
+        chosen = [t for t in tests if t[1] in failing] or tests[:1]
+        info['replay_test'] = chosen[0][0]
+        info['concrete_values'] = re.findall(r'//\s*(.+)\n\s*vec!\[([0-9, ]*)\]', chosen[0][0])
+        info['replay_result'] = '\n'.join(l for l in out2.split('\n') if 'panicked' in l or 'test result' in l or 'FAILED' in l)[:2000]
+        info['replayed'] = bool(failing)
+    except Exception as ex:  # replay is best effort; the violation is reported regardless
+        info['replay_result'] = f'playback error: {type(ex).__name__}: {ex}'
+    finally:
+        shutil.rmtree(d, ignore_errors=True)
+    return info
